@@ -321,8 +321,8 @@ func (x *SExec) apply(i int, op SOp) *Fail {
 			buf := make([]byte, x.Live.size())
 			if _, rerr := st.C.ReadAt(buf, 0); rerr == nil {
 				if d := x.Live.Diff(buf, 0); d != "" {
-					props = append(props, "C04")
-					detail += "; the volume now serves reads that miss acknowledged writes: " + d
+					props = append(props, "C04", "C05")
+					detail += "; the volume now serves reads that miss acknowledged writes (a replica that was detached is back in service without a rebuild): " + d
 				}
 			}
 			return sfail("boot|started-without-majority", detail, props...)
